@@ -14,9 +14,9 @@ CLAIMED = {
     "C19": ("Lean 4: rely/guarantee proof on a model of the functools.cache'd builders (every build under arbitrary invariant-preserving interference returns the plan of its key) + histories, injected stream failures at every position and a deterministic source-line thread scheduler on the real code",
             "Kio.C19.build_correct / history_independent / schedule_independent / io_failure over every history and interleaving of the model. On the code: shuffled create/use histories over classes sharing nested types; OSError injected at every write/read position followed by reuse of the same cached callable; all single-preemption points (strided in quick) and sampled two-preemption schedules of 4 cold-cache two-thread scenarios. Partial: atomicity of cache operations and absence of other shared state are CPython facts, exercised not proved.",
             "Lean kernel; same axioms; CPython runtime (GIL granularity, functools.cache) modelled.", "§6.19"),
-    "C03": ("Lean 4 theorem: the reader model accepts every encoding of an independent 'foreign peer' specification (explicit defaults/nulls, unknown tags at every level) + wire-first differential run",
-            "Kio.C03.accepts_foreign: for every coherent class, wire value and legal presence pattern, dec (Spec.encForeign pat s w ++ rest) = (w, rest). On the code: encodings produced by Spec.encForeign in Lean (send-defaults on/off, 0–3 unknown tags) are fed to the real reader and must decode to exactly the wire values.",
-            "Lean kernel; same axioms; Spec.encForeign written by me; the pattern is uniform over nesting levels (same unknown tags and send-defaults choice at every struct).", "§6.3"),
+    "C03": ("Lean 4 theorem over a relational specification of conforming encodings (mutual inductive predicate Spec.Conforms: per-occurrence freedom to send or omit defaults and to add unknown tagged entries), executable generators proved to lie inside it + wire-first differential run",
+            "Kio.C03.accepts_conforming: for every coherent class, wire value w and bytes bs with Spec.Conforms s w bs, dec (bs ++ rest) = (w, rest); foreign_is_conforming / mixed_is_conforming: the outputs of the executable generators Spec.encForeign (uniform pattern) and Spec.encMixed (seeded per-occurrence choices) are conforming; conforms_examples (non-vacuity, strictness, a negative). On the code: encodings produced by both generators in Lean (send-defaults on/off, 0–300 unknown tags incl. multi-byte tag numbers and 100 kB payloads, all tagged fields absent at the model's defaults) are fed to the real reader and must decode to exactly the wire values.",
+            "Lean kernel; same axioms; Spec.Conforms is my reading of KIP-482; the executable generators only sample it.", "§6.3"),
     "C08": ("Lean 4: header rule stated once as a function, instance theorem on the regenerated class/index tables by kernel evaluation, universal lemmas reading the predicate back as a proposition + exhaustive run on all 646 payload classes",
             "Kio.C08.shipped (decide +kernel on the regenerated tables): every request/response class advertises the header the Kafka rule names; header classes have the right version/flexibility; the index model pairs requests and responses mutually inversely with equal key, version, flexibility (Kio.C08.shipped_request/response). On the code: every payload class against an independent Python statement of the rule, and load_response_from_request / load_request_from_response identity.",
             "Lean kernel; same axioms; tables regenerated by the translator (trusted to print what it introspected); kio.index modelled by hand and compared on every entry.", "§6.8"),
@@ -27,13 +27,13 @@ CLAIMED = {
             "Kio.C12.*: membership iff in the closed range / finite / ms-precision aware non-negative; constructor = identity or TypeError; nesting i8⊆i16⊆i32⊆i64, u8⊆…⊆u64; members of fixed-width, duration and timestamp types are accepted by the writers and read back (from C11). Bounds regenerated from the source and kernel-compared with the documented ones. On the code: isinstance / T(v) / T.parse(v) / writer+reader on boundary grids.",
             "Lean kernel; same axioms; `timestamp() >= 0` float comparison modelled as sign of the µs count.", "§6.12"),
     "C13": ("Lean 4: decidable coherence predicate, instance theorem on all regenerated classes by kernel evaluation, universal theorem coherent ⇒ reader and writer derivable + exhaustive per-field differential run",
-            "Kio.C13.shipped_coherent / shipped_defaults (decide +kernel over 1629 classes, 5094 fields) and Kio.C13.derivable (∀ coherent schema). On the code: entity_reader/entity_writer construction for every class; classify_field / is_optional / get_field_tag / get_tagged_field_default compared with the model on every field.",
+            "Kio.C13.shipped_coherent / shipped_defaults (decide +kernel over 1629 classes, 5094 fields), Kio.C13.derivable (∀ coherent schema), dispatch_tables and implicit_defaults (the model's get_reader/get_writer tables and primitive zero values kernel-compared with rows the translator observes by calling the code entry by entry). On the code: entity_reader/entity_writer construction for every class; classify_field / is_optional / get_field_tag / get_tagged_field_default compared with the model on every field.",
             "Lean kernel; same axioms; translator maps annotations to shapes with typing.get_origin/get_args (documented introspection).", "§6.13"),
     "C14": ("Lean 4: decidable family-coherence predicate, instance theorem on the regenerated module table by kernel evaluation + the same predicate re-evaluated in Python on live classes",
             "Kio.C14.shipped: per module all classes share version/flexibility/key/header and the path = (snake-cased top-level class name minus _request/_response, version, kind); per (API, kind) contiguous versions, monotone flexibility, constant key; key unique to the API; request versions = response versions.",
             "Lean kernel; same axioms; the snake-case function is modelled (ASCII) and checked on the generator's documented examples.", "§6.14"),
     "C15": ("Lean 4: abstract object model of dataclass semantics with theorems for frozen+eq+slots classes, instance theorem (all regenerated classes have those parameters and immutable field types) + operation sequences on real instances",
-            "Kio.C15.immutable / mutation_rejected / hash_consistent / copies_equal / no_new_attributes over any op sequence in the object model; Kio.C15.shipped_params by kernel evaluation. On the code: setattr/delattr/new attribute/hash/==/copy/deepcopy/replace/pickle on generated instances of every class and the record classes. Partial: that CPython's dataclasses implements the modelled semantics is trusted and exercised, not proved.",
+            "Kio.C15.immutable / mutation_rejected / hash_consistent / copies_equal / no_new_attributes over any op sequence in the object model; Kio.C15.shipped_params and shipped_record_params by kernel evaluation (1629 classes and the 4 record classes: frozen/eq/slots, dataclass-generated __hash__, every field immutable and compared). On the code: setattr/delattr/new attribute/hash/==/copy/deepcopy/replace/pickle on generated and on *decoded* instances of every class (BytesIO, short-read source, payloads up to 1 MiB) and the record classes; pickles shipped to child processes with other hash seeds. Partial: that CPython's dataclasses implements the modelled semantics is trusted and exercised, not proved.",
             "Lean kernel; same axioms; CPython dataclass semantics modelled.", "§6.15"),
     "C02": ("Lean 4 theorem: writer model = independent declarative statement of the wire format (both directions) + real writer bytes compared with the spec evaluated in Lean",
             "Kio.C02.impl_eq_spec_ok / spec_eq_impl_ok / shipped: for every coherent class and well-typed canonical instance the encoder emits exactly Spec.enc (independent of the dispatch tables/plans/staging), and raises only where there is no encoding; unconditional on the 1629 regenerated classes (side conditions kernel-checked). On the code: entity_writer bytes vs Spec.enc for real instances, plus hand-assembled vectors.",
@@ -50,15 +50,15 @@ CLAIMED = {
     "C17": ("Lean 4 theorems: writer model = independent v2 layout of correctly derived parameters; independent decoder inverts it; CRC covers offset 21..end + differential run",
             "Kio.C17.layout / complete / independent_decode / crc_covers / spec_roundtrip for every non-empty record list with ms timestamps; CRC-32C modelled bitwise over BitVec 32 (check value proved). On the code: write_batch vs Spec.batchBytes(derive) and Spec.decBatch on generated batches.",
             "Lean kernel; same axioms; crc32c C extension assumed = bitwise model (compared on every batch); float ms conversion exact by ms_exact.", "§6.17"),
-    "C18": ("Lean 4 theorems: faithful read (partial: whole-second timestamps), magic, any single-byte corruption from the CRC field on ⇒ error (CRC-32C linearity/injectivity), every truncation ⇒ error + all bit flips / all cuts / CRC-colliding truncation on the real reader",
-            "Kio.C18.read_spec_partial / magic / byte_corruption / truncation / crc_byte_change; the full-strength timestamp claim is false of the code (timestamp_ms_lost_witness) and is the listed known finding C18/I. On the code: reference encodings + 4 real-broker fixtures × identity, wrong magic, every bit flip from byte 17, every cut, forged CRC-colliding truncation.",
+    "C18": ("Lean 4 theorems: what read returns for every reference batch (all fields exact, record timestamps floored to seconds — the exact content of known finding I; float fact proved), faithful read for whole seconds, magic, any single-byte corruption from the CRC field on ⇒ error (CRC-32C linearity/injectivity), every truncation ⇒ error + all bit flips / all cuts / CRC-colliding truncation on the real reader",
+            "Kio.C18.read_spec_floor / read_spec_partial / magic / byte_corruption / truncation / crc_byte_change; the full-strength timestamp claim is false of the code (timestamp_ms_lost_witness) and is the listed known finding C18/I. On the code: reference encodings (incl. compacted, zero-record, many-header, minimal-record and megabyte batches) + 4 real-broker fixtures × identity, write-back compared with the model's prepared-batch writer, wrong magic, every bit flip from byte 17, every cut, forged CRC-colliding truncation, other time zones / -O in child processes.",
             "Lean kernel; same axioms; known finding C18/I (milliseconds of record timestamps dropped; pinned by the existing tests).", "§6.18"),
     "C01": ("Lean 4 theorem by mutual structural induction over the schema type + kernel-checked instance on the regenerated class table + differential correspondence",
-            "Kio.C01.roundtrip: for every coherent schema, every well-typed canonical value and every suffix, dec (enc v ++ rest) = (v, rest); Kio.C01.shipped_coherent: all 1629 regenerated classes are coherent (decide +kernel). The model's enc/dec are tied to entity_writer/entity_reader by a differential run (real instances, three tails) on a seed-rotated subset of classes (all classes in thorough).",
-            "Lean kernel; axioms ⊆ {propext, Classical.choice, Quot.sound}; translator + correspondence harness; CPython float ops = fl53/pyRound model; restriction TaggedCanon (a tagged value == its default is the default itself).", "§6.1"),
+            "Kio.C01.roundtrip_eq: for every coherent schema, every well-typed value (typedOk) and every suffix, decoding enc v ++ rest consumes exactly the encoding and yields a value Python-equal (pyEq) to v, namely canon v (roundtrip_canon); roundtrip: structural equality under the TaggedCanon clause; negative_zero_witness shows the generalisation is strict; Kio.C01.shipped_coherent: all 1629 regenerated classes are coherent (decide +kernel). The model's enc/dec are tied to entity_writer/entity_reader by a differential run (real instances, three tails) on a seed-rotated subset of classes (all classes in thorough).",
+            "Lean kernel; axioms ⊆ {propext, Classical.choice, Quot.sound}; translator + correspondence harness; CPython float ops = fl53/pyRound model; the TaggedCanon restriction of `roundtrip` is lifted by `roundtrip_eq`; environment variants (TZ, -O, hash seed) exercised in child processes, not modelled.", "§6.1"),
     "C10": ("Lean 4 theorems (error classes, suffix consumption, linear step bound on an instrumented decoder) + mutation/random differential correspondence on all classes",
-            "Kio.C10.errors_allowed / consumes_prefix / linear_steps for every coherent schema and every byte string; instance on the 1629 regenerated classes; keyError_reachable_when_not_skipping documents the repaired defect. Correspondence: ~14 malformed inputs per class (quick) through the real reader vs the model, plus direct evaluation (no internal exception class, consumed ≤ given, re-encodable, wall clock).",
-            "Lean kernel; same axioms; re-encodability and the time bound on *failing* decodes are checked on the code only (not proved).", "§6.10"),
+            "Kio.C10.errors_allowed / consumes_prefix for every coherent schema and every byte string; linear_steps_all: the instrumented decoder returns what the decoder returns and takes <= 2*|input|+1 steps on EVERY input (constant attained; huge_count_is_cheap); instance on the 1629 regenerated classes; keyError_reachable_when_not_skipping documents the repaired defect. Correspondence: ~14 malformed inputs per class (quick) through the real reader vs the model, plus direct evaluation (no internal exception class, consumed ≤ given, re-encodable, wall clock).",
+            "Lean kernel; same axioms; re-encodability is Kio.C05.reencodable; wall-clock and CPU-scaling probes on the code complement the step bound (the model counts steps, not seconds).", "§6.10"),
     "C11": ("Lean 4 theorems on the primitive codec model + differential correspondence on all 66 functions",
             "Universal Lean theorems (round trip with suffix, minimal varints, zig-zag bijection, out-of-domain errors) about a hand model of kio.serial.readers/writers; the model is tied to the code by a differential run over every public function (exhaustive on small domains).",
             "Lean kernel; axioms ⊆ {propext, Classical.choice, Quot.sound}; hand model tied by correspondence; CPython struct/int semantics trusted.", "§6.11"),
